@@ -3,30 +3,60 @@ from propcfg.common import COMMON_ASSUME
 CFG = {
     "bin": "c13",
     "technique": "Lean 4 proof (post-order DFS with a shared visited set; rank invariant on open nodes; counting argument for the fuel) "
-                 "+ differential correspondence through real buildpack directories",
+                 "+ differential correspondence through real buildpack directories, and against the real cargo-libcnb executable (built from "
+                 "/repo) packaging generated cargo workspaces: the order it really packages in is what the spec oracle judges",
     "level_text": "Theorems (every node list, every acyclic dependency relation, every root selection, no size bound; stated on node positions and, "
                   "for pairwise distinct ids, on buildpack ids — build_order_ids): the order computed by "
                   "get_dependencies contains exactly the selected nodes and their transitive dependencies, each once, every node after all of "
                   "its dependencies; the fuel of the model never runs out; create_dependency_graph fails exactly when a dependency names no node "
                   "and otherwise keeps every declared dependency as an edge (order, multiplicity); unknown roots are the only error of "
-                  "get_dependencies; the executable judge used on the implementation's output is equivalent to the specification. Tied to the code "
-                  "by a differential run of build_libcnb_buildpacks_dependency_graph + get_dependencies on generated directories.",
+                  "get_dependencies; the executable judge used on the implementation's output is equivalent to the specification; packaging_order — "
+                  "the sequence of buildpacks libcnb-cargo's execute hands to package_buildpack (model packagingOrder: graph of the workspace, "
+                  "root_nodes from the invocation directory, get_dependencies, the loop over build_order as is) is non-empty and a build order "
+                  "of its selection; execute fails with the missing-dependency error exactly when the workspace has a dangling dependency and "
+                  "never with an unknown root. Tied to the code by (1) a differential run of build_libcnb_buildpacks_dependency_graph + "
+                  "get_dependencies on generated directories and (2) running the real `cargo libcnb package` executable on generated cargo "
+                  "workspaces from the root and from buildpack directories: the order of its '[n/m] Building <id>' progress lines (one per "
+                  "package_buildpack call) must equal the model's packagingOrder and is judged by the same spec oracle (whyNot/checkOrder).",
     "level_note": "Trusted: Lean kernel; Spec/Topo.lean (my reading of 'build order'); harness and driver glue. Modelled, not verified: "
                   "petgraph 0.8 Graph/DfsPostOrder (iterative; argued in Model/DepGraph.lean to emit in the order of the recursive DFS on every "
-                  "graph, sampled by the correspondence), ignore::Walk, toml/serde, uriparse. Buildpack ids are assumed pairwise distinct in a "
+                  "graph, sampled by the correspondence), ignore::Walk, toml/serde, uriparse; for the executable also cargo (locate-project, "
+                  "metadata, build) and rustc, which are runtime. The order of packaging is observed through the executable's progress lines "
+                  "(printed immediately before each package_buildpack call), not through file-system timestamps; only the host triple with "
+                  "--no-cross-compile-assistance, the dev profile and an external --package-dir / CARGO_TARGET_DIR are exercised there (what "
+                  "ends up in the package directory is C15's subject). The selection made by an invocation directory (buildpack there, else "
+                  "all from the root, else nothing) is read off the case by the driver glue. Buildpack ids are assumed pairwise distinct in a "
                   "workspace (with duplicate ids the code resolves every reference to the first node carrying the id; outside the quantifier).",
-    "shrink": [(1, "|"), (0, ";")],
+    "shrink": [(1, "|"), (0, ";"), (2, ";")],
     "exhaustive": True,
-    "rule": "exhaustive: every labelled DAG on <=4 (quick) / <=5 (thorough) nodes, dependency lists in ascending and in descending label order, "
+    "rule": "family 1 (library functions) — exhaustive: every labelled DAG on <=4 (quick) / <=5 (thorough) nodes, dependency lists in ascending and in descending label order, "
             "x every non-empty ordered selection of distinct roots (64 / 325 per 4- / 5-node graph; one case line per graph, one result per "
             "selection), each laid out as real buildpack directories (every 7th graph in a noisy layout: nested dirs, libcnb.rs and composite "
             "kinds, non-libcnb dependency URIs, foreign and unreadable buildpacks that must stay out of the graph); then seeded random DAGs "
             "(1..12 nodes, 12 ids incl. '/', '.', '-', duplicate dependency entries, 1..6 selections with repeated, unknown and empty roots, 3/4 "
             "in a noisy layout), 1/8 of them with one or two dangling dependencies; the empty workspace. The node order the directory walk "
-            "produced is read from the real graph and handed to the model. non-trivial = a dependency chain of length >=2, or a node with >=2 "
-            "dependents, or a dangling dependency; distinct = distinct case line",
+            "produced is read from the real graph and handed to the model. family 2 (`pkg`: the real cargo-libcnb executable, one real cargo "
+            "workspace per case: a dependency-free fn main(){} crate + component buildpack.toml [+ package.toml with libcnb: dependencies] per "
+            "libcnb.rs buildpack, buildpack.toml with [[order]] + package.toml per composite; one run per invocation directory) — exhaustive: "
+            "every labelled DAG on <=2 (quick) / <=3 (thorough) buildpacks x every assignment of kinds {libcnb.rs, composite} x invocation "
+            "from the workspace root and from every buildpack directory (thorough: every third such workspace once more with one buildpack "
+            "living in the workspace root); 12 hand-made workspaces (chains alternating kinds L>C>L, C>L>C, L>C>C, L>L>C; two diamonds mixing "
+            "kinds with unrelated buildpacks beside them; composite / libcnb.rs buildpack in the workspace root depending on and depended on by "
+            "others; a composite nested inside the libcnb.rs buildpack that depends on it; two unrelated pairs; 1/3 with a plain invocation "
+            "directory = empty selection); then 20 (quick) / 160 (thorough, half of them on exactly 4 buildpacks) seeded random workspaces: "
+            "3..7 buildpacks, random DAG, random kinds (<=3 crates), 4 directory styles, 1/4 one buildpack in the workspace root, 1/8 a "
+            "dangling dependency, invoked from the root and <=4 buildpack directories, 1/4 also from a plain directory. The directory-walk "
+            "order handed to the model is taken in-process with find_buildpack_dirs on the same unchanged tree. non-trivial = a dependency "
+            "chain of length >=2, or a node with >=2 dependents, or a dangling dependency, or (family 2) a dependency between buildpacks of "
+            "different kinds; distinct = distinct case line",
     "trusted_base": ["Spec/Topo.lean is my reading of 'build order' (Reachable, DepsFirst, nodup); checkOrder is proved equivalent to it (Lemmas/Topo.lean)",
-                     "the recursive DFS of Model/DepGraph.lean stands for petgraph's iterative DfsPostOrder (same emission order; sampled)"],
+                     "the recursive DFS of Model/DepGraph.lean stands for petgraph's iterative DfsPostOrder (same emission order; sampled)",
+                     "packagingOrder (Model/DepGraph.lean) stands for libcnb-cargo's execute up to and including the order of its package_buildpack calls; "
+                     "the '[n/m] Building <id>' progress lines are taken as the record of those calls (one line printed right before each call)",
+                     "harness: generation of a real cargo workspace from the abstract one; cargo/rustc are runtime; the executable is built from /repo's working tree "
+                     "into /verif/harness/target/c15-tool on every run"],
     "assumptions": COMMON_ASSUME + ["buildpack ids in one workspace are pairwise distinct",
-                                    "petgraph Graph::neighbors yields out-edges newest first; DfsPostOrder keeps discovered/finished across move_to"],
+                                    "petgraph Graph::neighbors yields out-edges newest first; DfsPostOrder keeps discovered/finished across move_to",
+                                    "pkg family: the workspace tree does not change between the harness's own find_buildpack_dirs call and the executable's "
+                                    "(checked: the walk is taken again after the runs and must be equal); every generated crate compiles (offline, no dependencies)"],
 }
